@@ -91,6 +91,7 @@ func bufferCycle(c *eng.Ctx, fn *ssa.Function, fieldKey string, emit eng.Matcher
 
 func runC10(c *eng.Ctx) {
 	p := c.P
+	forwardEntryIsFresh(c)
 
 	// ---- 1. walkers exhaustive and in agreement -----------------------------------------------------------------------------
 	c.Rule("EXHAUSTIVE", "query/operator{condition walkers}", func() {
@@ -557,16 +558,7 @@ func runC10(c *eng.Ctx) {
 		c.Check(true, "scan-exits", nil, f, fmt.Sprintf("%d early exit(s) examined", n), "")
 	})
 
-	c.Rule("ORDER", kvsT+".Flush{snapshot then purge, one hold}", func() {
-		f := c.Fn(kvsT + ".Flush")
-		ls := p.Locks(f, nil)
-		snap := c.One(f, eng.StoreField(kvsT+".snapshot"), "s.snapshot = new")
-		purge := c.One(f, invokeOnGeneric(".bucketCache", "Purge"), "bucketCache.Purge()")
-		ok, why := ls.SameHold(snap.Instr, purge.Instr, kvsMu, true)
-		c.Check(ok, "purge-with-snapshot-swap", purge.Instr, f, "the bucket cache is purged in the same write hold that installs the new snapshot (a cached bucket always belongs to the current snapshot)", why)
-		owner(c, "call of bucketCache.Purge", invokeOnGeneric(".bucketCache", "Purge"), []string{kvsT + ".Flush"}, 1)
-		c.Observe("getOrCreateValue may add a bucket read from the previous snapshot to the cache right after Flush purged it (lookup started before the swap) — a stale-cache window noticed, not armed")
-	})
+	kvStoreFlushSnapshotThenPurge(c)
 
 	// ---- merge accumulators ------------------------------------------------------------------------------------------------------------------
 	c.Rule("RESET", "index/v1.forwardIndexMerger.Merge{tagValueIDs per container}", func() {
@@ -990,4 +982,19 @@ func mustPassT(p *eng.Prog, f *ssa.Function, m eng.Matcher) bool {
 		Target:  func(in ssa.Instruction) bool { _, ok := in.(*ssa.Return); return ok && in.Parent() == f },
 		Blocked: func(in ssa.Instruction) bool { return m(p, in) }})
 	return !skip
+}
+
+func kvStoreFlushSnapshotThenPurge(c *eng.Ctx) {
+	p := c.P
+	_ = p
+	c.Rule("ORDER", kvsT+".Flush{snapshot then purge, one hold}", func() {
+		f := c.Fn(kvsT + ".Flush")
+		ls := p.Locks(f, nil)
+		snap := c.One(f, eng.StoreField(kvsT+".snapshot"), "s.snapshot = new")
+		purge := c.One(f, invokeOnGeneric(".bucketCache", "Purge"), "bucketCache.Purge()")
+		ok, why := ls.SameHold(snap.Instr, purge.Instr, kvsMu, true)
+		c.Check(ok, "purge-with-snapshot-swap", purge.Instr, f, "the bucket cache is purged in the same write hold that installs the new snapshot (a cached bucket always belongs to the current snapshot)", why)
+		owner(c, "call of bucketCache.Purge", invokeOnGeneric(".bucketCache", "Purge"), []string{kvsT + ".Flush"}, 1)
+		c.Observe("getOrCreateValue may add a bucket read from the previous snapshot to the cache right after Flush purged it (lookup started before the swap) — a stale-cache window noticed, not armed")
+	})
 }
